@@ -92,7 +92,11 @@ def run_inexact(N, alpha, beta, ops, kind="vector", seed=0):
     """ops: ("add", w) | ("update", idxs, float pris) | ("sample", B, variates in [0,1))."""
     from agilerl.components.replay_buffer import PrioritizedReplayBuffer
 
+    from agilerl.components.sampler import Sampler
+
     buf = PrioritizedReplayBuffer(max_size=N, alpha=alpha)
+    sampler = Sampler(memory=buf)
+    nsample = 0
     cap = buf.sum_tree.capacity
     nxt = 1
     seen_max = 1.0
@@ -137,8 +141,10 @@ def run_inexact(N, alpha, beta, ops, kind="vector", seed=0):
                 B, us = op[1], op[2]
                 e.update({"B": B, "idxs": []})
                 stub = RandStub(us)
+                nsample += 1
                 with mock.patch.object(torch, "rand", stub):
-                    b = buf.sample(B, beta)
+                    # every other batch is drawn the way the training loops draw it: through the Sampler
+                    b = sampler.sample(B, beta) if nsample % 2 == 0 else buf.sample(B, beta)
                 idxs = [int(x) for x in b["idxs"].reshape(-1).tolist()]
                 e["idxs"] = idxs
                 n = len(buf)
